@@ -15,10 +15,12 @@ Case (driver "uploads"):
      R = the ADD_ONION / SETCONF reply arrives;  o = HS_DESC event of the service itself,
      f = of a second (foreign) service, ACTION in UPLOAD/UPLOADED/FAILED, dir = directory index
      (equal indices = the same HSDir);  c = an HS_DESC CREATED event (noise Tor also sends).
-The driver interprets the trace causally: an outcome whose UPLOAD was not seen yet, a repeated
-UPLOAD/outcome for the same (service, directory), and - for ADD_ONION services, whose address only
-exists once Tor replied - own events before R are skipped (counted); a missing R is appended.
+The driver interprets the trace causally: an outcome whose UPLOAD was not seen yet and a repeated
+UPLOAD/outcome for the same (service, directory) are skipped (counted); a missing R is appended.
 After every step the create() Deferred is compared with vlib.onionref.UploadModel.
+Own events of an ADD_ONION service that arrive before R (the reply is still unread, so txtorcon may not
+know the address yet) are judged with latitude: the whole history must agree either with the model
+that counts them or with the model in which those uploads (and their later outcomes) are unrecorded.
 When Tor rejects the creating command, or txtorcon refuses the key (then no command is sent and R
 is dropped), the service never exists: own events are skipped, create() must fail at that moment
 with that error, and the creation's HS_DESC listener must be gone once everything is answered.
@@ -41,7 +43,8 @@ FAILED_REASONS = ["UPLOAD_REJECTED", "UNEXPECTED", "UPLOAD_REJECTED", "UNEXPECTE
 LEVEL = "exploration"
 RULE = ("Histories of HS_DESC UPLOAD/UPLOADED/FAILED events over 1..4 directories of the created service "
         "interleaved with events of a foreign service on partly shared directories (UPLOAD precedes its outcome), "
-        "the ADD_ONION/SETCONF reply placed before/between/after them, both waiting modes, for "
+        "the ADD_ONION/SETCONF reply placed before/between/after them (own events of an ADD_ONION service may "
+        "overtake the reply: judged against the 'counted' and the 'unrecorded' reading), both waiting modes, for "
         "EphemeralOnionService / EphemeralAuthenticatedOnionService / FilesystemOnionService / "
         "FilesystemAuthenticatedOnionService .create over the real control protocol; after every event the "
         "create() Deferred is compared with a reference completion model, at the end with the subscription "
@@ -56,7 +59,7 @@ RULE = ("Histories of HS_DESC UPLOAD/UPLOADED/FAILED events over 1..4 directorie
         "or a refused key, or an application listener); distinct = distinct canonical JSON.")
 ASSUMPTIONS = [
     "each (service, directory) pair gets at most one UPLOAD and one outcome per trace (no retries); an UPLOAD precedes its outcome",
-    "an ADD_ONION service's own events never precede the ADD_ONION reply (its address does not exist before); a filesystem service's may precede the SETCONF reply",
+    "a filesystem service's own events may precede the SETCONF reply and count (its address is on disk); an ADD_ONION service's own events may overtake the ADD_ONION reply too (the reply is still unread), but txtorcon need not know the address then: the whole history must agree with ONE of two readings - those uploads and their later outcomes are counted, or they are unrecorded (ignored) - so in either reading a creation never completes while an upload that started after the reply is unanswered, and an outcome for an unrecorded upload never takes part in the count",
     "completion is evaluated eagerly: a decision is due as soon as the events seen so far satisfy the statement (later UPLOADs do not retract it), and never before the creating command was answered",
     "a create() that fails because every upload failed may carry any exception type; a successful one must return the service object",
     "when Tor rejects ADD_ONION/SETCONF with 5xx the service never exists: Tor sends no event for it (own events in such a trace are skipped and counted), create() stays pending until the rejection arrives and then fails with TorProtocolError carrying that code; a key txtorcon refuses (CR/LF in the blob; RSA1024 key with version=3, as its tests pin) fails create() with ValueError; if it sends ADD_ONION for such a key instead the case is excluded and counted (whether that is allowed is C14's subject)",
@@ -98,7 +101,7 @@ def interpret(case):
             out.append(["R"])
         elif t in ("o", "f"):
             act, d = st_[1], st_[2]
-            if t == "o" and (never or (eph and not replied)):
+            if t == "o" and never:
                 skipped += 1
                 continue
             if act == "UPLOAD":
@@ -113,7 +116,7 @@ def interpret(case):
                 seen_out.add((t, d))
             out.append([t, act, d])
         elif t == "c":
-            if st_[1] == "o" and (never or (eph and not replied)):
+            if st_[1] == "o" and never:
                 skipped += 1
                 continue
             out.append(["c", st_[1]])
@@ -154,6 +157,10 @@ class _Obs(object):
         self.progress = []
         self.sent = True
         self.not_refused = False
+        self.pre_reply_own = 0      # own events of an ADD_ONION service delivered before the reply
+        self.pre_outcome_after_reply = False
+        self.vs = "counted"
+        self.alive = None
         self.failed_at = None       # never-exists class: step index at which create() must have failed (-1 = at once)
 
 
@@ -244,6 +251,11 @@ def _execute(case, steps):
         try:
             held = tor.add_onion_lines if kind in ("ephemeral", "auth") else tor.setconf_lines
             ref = ob.ref = onionref.UploadModel(await_all)
+            # latitude for ADD_ONION kinds: own uploads announced before the reply was read may be unrecorded
+            ref_u = onionref.UploadModel(await_all)
+            eph = kind in ("ephemeral", "auth")
+            alive = {"counted": True, "unrecorded": True}
+            pre_dirs = set()
             if refuse:
                 if held:
                     # not refused after all; whether such a key may be sent is C14's subject, not judged here
@@ -290,11 +302,20 @@ def _execute(case, steps):
                         ev = onionref.hs_desc("FAILED", addr, hsd, descid=onionref.desc_id(version, dnum),
                                               reason=reason)
                     ref.feed(is_own, act, hsd)
+                    if is_own and eph and not replied:
+                        ob.pre_reply_own += 1
+                        if act == "UPLOAD":
+                            pre_dirs.add(hsd)
+                    else:
+                        ref_u.feed(is_own, act, hsd)      # outcomes of unrecorded uploads are ignored by the model
+                    if is_own and replied and hsd in pre_dirs and act != "UPLOAD":
+                        ob.pre_outcome_after_reply = True
                     tor.event(ev)
 
                 want = ref.decision if replied else None
+                want_u = ref_u.decision if replied else None
                 if ob.failed_at is not None:
-                    want = "failure"
+                    want = want_u = "failure"
                 got = None if w.pending else ("failure" if w.failed else "success")
                 if code is not None and replied and ob.mismatch is None and w.failed and not (
                         type(w.failure.value).__name__ == "TorProtocolError" and
@@ -302,6 +323,17 @@ def _execute(case, steps):
                     ob.problems.append(("rejected-command-wrong-error",
                                         "Tor answered %d, create() -> %r" % (code, w.outcome())))
                     code = None         # report once
+                was = dict(alive)
+                alive["counted"] = alive["counted"] and got == want
+                alive["unrecorded"] = alive["unrecorded"] and got == want_u
+                if alive["counted"] or alive["unrecorded"]:
+                    # consistent with at least one reading so far
+                    if got is not None and ob.decided_at is None:
+                        ob.decided_at = i
+                    continue
+                if not was["counted"] and was["unrecorded"]:
+                    want = want_u       # it followed the 'unrecorded' reading until now: report against that one
+                    ob.vs = "unrecorded"
                 if want is not None and ob.decided_at is None:
                     ob.decided_at = i
                 if got != want and ob.mismatch is None:
@@ -311,9 +343,12 @@ def _execute(case, steps):
                         sym = "not-completed" if want == "success" else "not-failed"
                     else:
                         sym = "wrong-outcome"
-                    ob.mismatch = (i, sym, "after step %d %r of %r: create() is %r, model says %r" % (
-                        i, s, steps, w.outcome()[:2], want or "pending"))
+                    ob.mismatch = (i, sym, "after step %d %r of %r: create() is %r, model says %r%s" % (
+                        i, s, steps, w.outcome()[:2], want or "pending",
+                        (" (uploads announced before the ADD_ONION reply taken as %s; the other reading disagrees "
+                         "as well)" % ob.vs) if ob.pre_reply_own else ""))
 
+            ob.alive = alive
             if w.fired > 1:
                 ob.problems.append(("fired-more-than-once", "create() fired %d times" % w.fired))
             if w.succeeded:
@@ -339,7 +374,8 @@ def _execute(case, steps):
                                         "application's), last SETEVENTS %r" % (
                                             steps, " refused key" if refuse else "", w.outcome()[:2], listeners,
                                             len(mine), tor.setevents_lines[-1:])))
-            elif ref.decision is None and not ob.taints and not (listeners and tor.subscribed("HS_DESC")):
+            elif not ob.taints and not (listeners and tor.subscribed("HS_DESC")) and not any(
+                    m.decision is not None for m, k_ in ((ref, "counted"), (ref_u, "unrecorded")) if alive[k_]):
                 ob.problems.append(("subscription-dropped-while-pending",
                                     "trace %r: create() pending, model undecided, but HS_DESC has %d listeners, "
                                     "last SETEVENTS %r" % (steps, listeners, tor.setevents_lines[-1:])))
@@ -363,6 +399,9 @@ def _symptom_tag(case, ob):
         # want is "pending" before the rejection and "failure" from then on
         return {"not-failed": "rejected-create-not-failed", "wrong-outcome": "rejected-create-succeeded",
                 "completed-early": "rejected-create-succeeded", "failed-early": "rejected-create-failed-early"}[sym]
+    if ob.pre_reply_own and ob.pre_outcome_after_reply and sym in ("not-failed", "completed-early", "not-completed"):
+        # the outcome of an upload whose start was (possibly) not recorded took part in the count
+        return "outcome-of-unrecorded-upload-counted"
     if case["kind"] == "auth" and case["key"] == "discard" and sym in ("not-completed", "not-failed"):
         return "auth-discard-own-events-unmatched"
     if sym == "not-completed" and ref.await_all and ref.failed:
@@ -424,6 +463,14 @@ def drive_uploads(case):
         res.label("shared-dir")
     if ob.taints:
         res.label("foreign-UPLOADED-on-own-attempted-dir")
+    if ob.pre_reply_own:
+        res.label("own-event-before-ADD_ONION-reply")
+        if ob.pre_outcome_after_reply:
+            res.label("outcome-of-pre-reply-upload-after-reply")
+        if ob.alive and ob.mismatch is None:
+            both = ob.alive["counted"] and ob.alive["unrecorded"]
+            res.label("pre-reply-reading:" + ("indistinguishable" if both else
+                                              "counted" if ob.alive["counted"] else "unrecorded"))
     ridx = steps.index(["R"]) if ["R"] in steps else -1
     if ridx < 0:
         res.label("reply:none")
@@ -484,7 +531,8 @@ def cases(draw):
         trace.insert(draw(st.integers(0, len(trace))), ["c", draw(st.sampled_from(["o", "f"]))])
     if kind in ("ephemeral", "auth"):
         first_own = next((i for i, s in enumerate(trace) if s[0] == "o" or s == ["c", "o"]), len(trace))
-        rpos = draw(st.integers(0, first_own))
+        # one in three: the reply is read late, own events overtake it (judged with latitude)
+        rpos = draw(st.integers(0, first_own if draw(st.integers(0, 2)) else len(trace)))
     else:
         rpos = draw(st.one_of(st.just(0), st.integers(0, len(trace))))
     trace.insert(rpos, ["R"])
@@ -589,6 +637,22 @@ def reply_placement_cases():
                                 yield _mk(kind, version, key, mode, k % 3, tr[:pos] + [["R"]] + tr[pos:])
 
 
+def pre_reply_cases(ndirs):
+    """ADD_ONION kinds: every causal order over ndirs own directories x every reply position that lets
+    at least one own event overtake the reply x both modes (the service kind rotates)."""
+    kinds = [("ephemeral", 3, "none"), ("ephemeral", 2, "supplied"), ("ephemeral", 3, "discard"),
+             ("ephemeral", 2, "none"), ("ephemeral", 3, "supplied")]
+    k = 0
+    for mode in (True, False):
+        for tr in _service_orders("o", list(range(ndirs))):
+            for pos in range(1, len(tr) + 1):
+                k += 1
+                kind, version, key = kinds[k % len(kinds)]
+                if k % 29 == 0:
+                    kind, version, key = [("auth", 2, "none"), ("auth", 2, "supplied"), ("auth", 2, "discard")][(k // 29) % 3]
+                yield _mk(kind, version, key, mode, k % 3, tr[:pos] + [["R"]] + tr[pos:])
+
+
 def never_exists_cases():
     """Tor rejects the creating command (every reply position among a foreign service's events) or
     txtorcon refuses the key; with and without an application-owned HS_DESC listener."""
@@ -652,11 +716,16 @@ def run(ctx):
                       name="own2-foreign1-sample", exhaustive=False)
         ctx.enumerate("uploads", itertools.islice(own_only_cases(3, ALL_KINDS), 0, None, 7),
                       name="own-3dirs-sample", exhaustive=False)
+        ctx.enumerate("uploads", pre_reply_cases(2), name="own-events-overtake-reply-2dirs")
+        ctx.enumerate("uploads", itertools.islice(pre_reply_cases(3), 0, None, 23),
+                      name="own-events-overtake-reply-3dirs-sample", exhaustive=False)
         ctx.enumerate("uploads", itertools.islice(never_exists_cases(), 0, None, 7),
                       name="never-exists-sample", exhaustive=False)
         ctx.search("uploads", cases(), quick=700)
     else:
         ctx.enumerate("uploads", never_exists_cases(), name="rejected-or-refused-every-reply-position")
+        ctx.enumerate("uploads", pre_reply_cases(2), name="own-events-overtake-reply-2dirs")
+        ctx.enumerate("uploads", pre_reply_cases(3), name="own-events-overtake-reply-3dirs")
         ctx.enumerate("uploads", own_only_cases(1, ALL_KINDS), name="own-1dir-all-orders")
         ctx.enumerate("uploads", own_only_cases(3, ALL_KINDS), name="own-3dirs-all-orders")
         ctx.enumerate("uploads", own_only_cases(4, ALL_KINDS[:3]), name="own-4dirs-all-orders")
@@ -668,15 +737,15 @@ def run(ctx):
 
 
 # NOTE: written against the tree with every fixes/C15-*.diff applied (they touch this code), including
-# fixes/C15-subscription-kept-after-rejected-command.diff.
+# fixes/C15-subscription-kept-after-rejected-command.diff and fixes/C15-failed-for-unrecorded-upload-counted.diff.
 MUTANTS = [
     ("complete-on-UPLOAD", "txtorcon/onion.py",
      "                attempted_uploads.add(args[3])\n",
      "                attempted_uploads.add(args[3])\n                confirmed_uploads.add(args[3])\n"
      "                if not uploaded.called and not await_all:\n                    uploaded.callback(onion)\n"),
     ("failed-ignores-hostname", "txtorcon/onion.py",
-     "        elif subtype == 'FAILED':\n            if hostname_matches('{}.onion'.format(args[1])):",
-     "        elif subtype == 'FAILED':\n            if True:"),
+     "            if args[3] in attempted_uploads and hostname_matches('{}.onion'.format(args[1])):",
+     "            if args[3] in attempted_uploads:"),
     ("upload-ignores-hostname", "txtorcon/onion.py",
      "        if subtype == 'UPLOAD':\n            if hostname_matches('{}.onion'.format(args[1])):",
      "        if subtype == 'UPLOAD':\n            if True:"),
@@ -684,6 +753,13 @@ MUTANTS = [
      "            if args[3] in attempted_uploads and uploaded_matches(args[1]):", "            if args[3] in attempted_uploads:"),
     ("uploaded-address-check-v3-only", "txtorcon/onion.py",
      "        if re.match('^([a-z2-7]{16}|[a-z2-7]{56})$', address):", "        if re.match('^([a-z2-7]{56})$', address):"),
+    # --- outcomes of uploads whose start was not recorded (announced before the ADD_ONION reply was read)
+    ("uploaded-counts-unrecorded-dir-when-address-is-own", "txtorcon/onion.py",
+     "            if args[3] in attempted_uploads and uploaded_matches(args[1]):",
+     "            if uploaded_matches(args[1]) and (args[3] in attempted_uploads or len(args[1]) in (16, 56)):"),
+    ("failed-counts-unrecorded-dir", "txtorcon/onion.py",
+     "            if args[3] in attempted_uploads and hostname_matches('{}.onion'.format(args[1])):",
+     "            if hostname_matches('{}.onion'.format(args[1])):"),
     ("all-mode-off-by-one", "txtorcon/onion.py",
      "                        if (len(failed_uploads) + len(confirmed_uploads)) == len(attempted_uploads):",
      "                        if (len(failed_uploads) + len(confirmed_uploads)) >= len(attempted_uploads) - 1:"),
